@@ -516,6 +516,7 @@ type c14Ent struct {
 type c14Shadow struct {
 	snapIdx, snapTerm uint64
 	snapV, snapL      []uint64
+	snapData          []byte
 	ents              []c14Ent // indices snapIdx+1 ..
 	term              uint64
 	vote              uint64
@@ -655,7 +656,7 @@ func (s *c14Shadow) hsStr() string { return fmt.Sprintf("%d,%d,%d", s.term, s.vo
 // genMutation produces one mutation op (without the leading "par") for scope sc; safe = never erroring, no snapshot.
 func c14GenMutation(g *Gen, sh *c14Shadow, sc int, allowInvalid, safe bool) string {
 	for {
-		k := g.R.Pick(34, 9, 8, 13, 12, 5, 5, 10)
+		k := g.R.Pick(30, 9, 8, 14, 16, 5, 7, 10)
 		if safe && k != 0 && k != 2 && k != 3 {
 			k = 0
 		}
@@ -733,6 +734,10 @@ func c14GenMutation(g *Gen, sh *c14Shadow, sc int, allowInvalid, safe bool) stri
 			g.Count("mark")
 			return fmt.Sprintf("mark %d %d", sc, sh.applied)
 		case 4: // compaction: snapshot at an applied index inside the log
+			if sh.snapIdx > 0 && g.R.Chance(12) {
+				g.Count("save:snapshot-identical-reinstall")
+				return fmt.Sprintf("save %d - %s 1 -", sc, c14SnapStr(sh.snapIdx, sh.snapTerm, sh.snapV, sh.snapL, sh.snapData))
+			}
 			if sh.applied <= sh.snapIdx || sh.applied > sh.last() {
 				continue
 			}
@@ -741,7 +746,7 @@ func c14GenMutation(g *Gen, sh *c14Shadow, sc int, allowInvalid, safe bool) stri
 			term := sh.ents[idx-sh.snapIdx-1].term
 			data := g.R.Bytes(g.R.Range(0, 4))
 			sh.ents = append([]c14Ent(nil), sh.ents[idx-sh.snapIdx:]...)
-			sh.snapIdx, sh.snapTerm, sh.snapV, sh.snapL = idx, term, v, l
+			sh.snapIdx, sh.snapTerm, sh.snapV, sh.snapL, sh.snapData = idx, term, v, l, data
 			hs := "-"
 			if g.R.Chance(40) {
 				hs = sh.hsStr()
@@ -776,7 +781,7 @@ func c14GenMutation(g *Gen, sh *c14Shadow, sc int, allowInvalid, safe bool) stri
 			}
 			data := g.R.Bytes(g.R.Range(0, 4))
 			sh.ents = nil
-			sh.snapIdx, sh.snapTerm, sh.snapV, sh.snapL = idx, term, v, l
+			sh.snapIdx, sh.snapTerm, sh.snapV, sh.snapL, sh.snapData = idx, term, v, l, data
 			if sh.commit < idx {
 				sh.commit = idx
 			}
@@ -812,7 +817,7 @@ func c14GenMutation(g *Gen, sh *c14Shadow, sc int, allowInvalid, safe bool) stri
 			}
 			data := g.R.Bytes(g.R.Range(0, 4))
 			sh.ents = append([]c14Ent(nil), sh.ents[idx-sh.snapIdx:]...)
-			sh.snapIdx, sh.snapTerm, sh.snapV, sh.snapL = idx, term, v, l
+			sh.snapIdx, sh.snapTerm, sh.snapV, sh.snapL, sh.snapData = idx, term, v, l, data
 			if sh.commit < idx {
 				sh.commit = idx
 			}
@@ -890,7 +895,7 @@ func genC14(g *Gen) {
 		g.Case()
 		var sh [3]c14Shadow
 		allowInvalid := g.R.Chance(30)
-		nops := g.R.Range(15, 45)
+		nops := g.R.Range(25, 70)
 		for i := 0; i < nops; i++ {
 			sc := g.R.Pick(5, 3, 2)
 			s := &sh[sc]
